@@ -129,6 +129,41 @@ func (ms *mesh) trackFrame(rid *restIDs, restID string, emit bool, label string,
 	return
 }
 
+// farPair returns two routers at least d links apart (the farthest pair found), or -1, -1.
+func (ms *mesh) farPair(d int) (int, int) {
+	n := len(ms.nodes)
+	adj := make([][]int, n)
+	for _, e := range ms.edges {
+		adj[e[0]] = append(adj[e[0]], e[1])
+		adj[e[1]] = append(adj[e[1]], e[0])
+	}
+	bp, bq, best := -1, -1, d-1
+	for _, s := range ms.c.Rng.Perm(n) {
+		dist := make([]int, n)
+		for i := range dist {
+			dist[i] = -1
+		}
+		dist[s] = 0
+		q := []int{s}
+		for len(q) > 0 {
+			v := q[0]
+			q = q[1:]
+			for _, u := range adj[v] {
+				if dist[u] < 0 {
+					dist[u] = dist[v] + 1
+					q = append(q, u)
+				}
+			}
+		}
+		for t, dt := range dist {
+			if dt > best {
+				bp, bq, best = s, t, dt
+			}
+		}
+	}
+	return bp, bq
+}
+
 func runC10(c *Ctx) error {
 	c.Res.Rule = "(a) converged real meshes (as C09): for ordered router pairs A,B a pong request is sent by A's real ping handler, followed hop by hop (each delivery replayed through the model's switch_handle with the router's current links and table) to B, B's reply followed back to A; " +
 		"(b) adversarial worlds of 3..5 fully linked routers with crafted cyclic / inconsistent routing tables and crafted frames: TTL 0,1,2,3,17,32,255; no switch block / label cycles / too-small / garbage switch blocks; unicast, traffic and hop-ping types; routable, unroutable, own and unknown destinations; " +
@@ -258,6 +293,90 @@ func runC10(c *Ctx) error {
 			c.CountN("request-links", reqCross)
 			c.NonTrivial(fmt.Sprintf("mesh/%s/%d/links=%d", sp.kind, sp.n, reqCross))
 		}
+		// ---------- a link is added, everyone announces again, the same requests are sent again ----------
+		// Every router first sends a request to each of two routers P and Q that are at least three links
+		// apart; then P and Q get a direct link (as after a completed handshake), every router announces
+		// itself again and the flood drains: the mesh is converged and honest again (C09's notion), now
+		// with shorter routes through the new link.  Every router's next requests, to the same
+		// destinations, must be delivered and answered as before.
+		if pi, qi := ms.farPair(3); pi >= 0 {
+			P, Q := ms.nodes[pi], ms.nodes[qi]
+			simple := func(A, B *rnode, phase string) bool {
+				ms.w.queue = nil
+				notify, _, err := A.ro.PingPong.Send(B.id.IP, false, 0)
+				c.Eval()
+				if err != nil || len(ms.w.queue) != 1 {
+					c.Violate("a router with a route to the destination could not send a routed request ("+phase+")", "cannot-send-"+phase, map[string]any{"mesh": label, "err": fmt.Sprint(err), "queued": len(ms.w.queue)})
+					return false
+				}
+				fi := parseFrameInfo(ms.w.queue[0].data)
+				firstTo := ms.w.queue[0].link.to
+				tr := ms.trackFrame(rid, fi.restID, phase == "after-new-link", label, 64)
+				if len(tr.handledBy) != 1 || tr.handledBy[0] != B {
+					c.Violate("a routed request was not handed to exactly the destination's handlers ("+phase+")", "misdelivered-"+phase,
+						map[string]any{"mesh": label, "from": A.name, "to": B.name, "first_hop": firstTo.name, "handled_by": len(tr.handledBy), "crossings": tr.crossings, "new_link": P.name + "-" + Q.name})
+					return false
+				}
+				var reply *inflight
+				for _, q := range tr.replies {
+					if fo := parseFrameInfo(q.data); fo.src == B.id.IP && fo.dst == A.id.IP {
+						reply = q
+					}
+				}
+				if reply == nil {
+					c.Violate("the destination did not answer the routed request ("+phase+")", "no-reply-"+phase, map[string]any{"mesh": label, "from": A.name, "to": B.name})
+					return false
+				}
+				tr2 := ms.trackFrame(rid, parseFrameInfo(reply.data).restID, false, label, 64)
+				got := false
+				select {
+				case <-notify:
+					got = true
+				case <-time.After(200 * time.Millisecond):
+				}
+				if !got || len(tr2.handledBy) != 1 || tr2.handledBy[0] != A {
+					c.Violate("the destination's reply did not reach the requesting router ("+phase+")", "reply-lost-"+phase,
+						map[string]any{"mesh": label, "from": A.name, "to": B.name, "handled_by": len(tr2.handledBy), "new_link": P.name + "-" + Q.name})
+					return false
+				}
+				return true
+			}
+			both := func(phase string) bool {
+				ok := true
+				for _, A := range ms.nodes {
+					// the last request of every router is the one to Q (to P for Q itself)
+					for _, B := range []*rnode{P, Q} {
+						if A != B {
+							ok = simple(A, B, phase) && ok
+						}
+					}
+				}
+				return ok
+			}
+			if both("before-new-link") {
+				var lp, lq m.SwitchLabel
+				for lp = 2; P.pe.GetLinkByLabel(lp) != nil; lp++ {
+				}
+				for lq = 2; Q.pe.GetLinkByLabel(lq) != nil; lq++ {
+				}
+				if _, _, err := ms.w.connect(P, Q, lp, lq); err != nil {
+					return err
+				}
+				ms.edges = append(ms.edges, [2]int{pi, qi})
+				ms.w.queue = nil
+				time.Sleep(3 * time.Millisecond) // signing times have millisecond precision
+				ms.announceAll(c.Rng.Perm(sp.n))
+				ms.floodAndCheck(func(n int) int { return c.Rng.IntN(n) }, 0, label+"/new-link")
+				c.Count("event:link-added-and-reconverged")
+				if _, bad := ms.checkReach(label + "/new-link"); bad == 0 {
+					if both("after-new-link") {
+						c.Count("all-delivered-after-new-link")
+					}
+					c.NonTrivial(fmt.Sprintf("new-link/%s/%d", sp.kind, sp.n))
+				}
+			}
+		}
+
 		// requests whose size makes frame + link margins meet a pooled-buffer tier exactly (and one byte
 		// less / more): they are built, forwarded and delivered like any other
 		if si%2 == 0 || c.Thorough() {
